@@ -38,8 +38,9 @@ impl Prop for C06 {
     }
     fn strategy(&self, _tier: Tier) -> BoxedStrategy<GraphCase> {
         let small = graph_strategy(&ALL_KINDS, 0, 10, edges_small, &[0, 1, 1, 3], 4);
+        let mid = graph_strategy(&ALL_KINDS, 11, 20, edges_large, &[0, 1, 3], 3);
         let large = graph_strategy(&ALL_KINDS, 21, 34, edges_large, &[0, 1, 3], 3);
-        prop_oneof![30 => small, 1 => large].boxed()
+        prop_oneof![30 => small, 2 => mid, 1 => large].boxed()
     }
     fn random_cases(&self, tier: Tier) -> u32 {
         tier.pick(200_000, 2_000_000)
@@ -80,7 +81,7 @@ impl Prop for C06 {
         }
         out.class(format!("kind_{}", ng.spec().label()));
         out.class(format!("wmode_{}", case.wmode));
-        out.class(if n <= 20 { "n<=10" } else { "n>20_parallel_path" });
+        out.class(if n <= 10 { "n<=10" } else if n <= 20 { "n_11_to_20" } else { "n>20_parallel_path" });
         out.nontrivial = nontrivial;
         out
     }
